@@ -6,10 +6,10 @@ use crate::halloc::{self, Refuse};
 use crate::ops::*;
 use crate::report::Report;
 
-pub const N_OPS: usize = 17;
+pub const N_OPS: usize = 18;
 pub const OP_NAMES: [&str; N_OPS] = [
     "alloc_layout", "alloc_val", "alloc_slice", "alloc_str", "try_with", "slice_try_fill", "allocate", "deallocate", "realloc", "reset", "set_limit", "iter",
-    "scribble", "reconstruct", "park", "drop_on_thread", "refuse_toggle",
+    "scribble", "reconstruct", "park", "drop_on_thread", "refuse_toggle", "huge",
 ];
 
 #[derive(Clone, Debug)]
@@ -22,26 +22,30 @@ pub struct Profile {
 
 impl Profile {
     pub const fn general() -> Profile {
-        Profile { name: "general", w: [14, 12, 12, 4, 8, 5, 10, 8, 12, 3, 2, 3, 4, 1, 6, 0, 0], max_size: 12 << 10, max_align_log2: 12 }
+        Profile { name: "general", w: [14, 12, 12, 4, 8, 5, 10, 8, 12, 3, 2, 3, 4, 1, 6, 0, 0, 0], max_size: 12 << 10, max_align_log2: 12 }
     }
     pub const fn contents() -> Profile {
-        Profile { name: "contents", w: [8, 10, 16, 5, 8, 6, 8, 6, 16, 2, 1, 2, 10, 1, 4, 0, 0], max_size: 16 << 10, max_align_log2: 8 }
+        Profile { name: "contents", w: [8, 10, 16, 5, 8, 6, 8, 6, 16, 2, 1, 2, 10, 1, 4, 0, 0, 0], max_size: 16 << 10, max_align_log2: 8 }
     }
     pub const fn chunks() -> Profile {
         // many chunks, resets, drops, refusals: C03 / C06 / C08
-        Profile { name: "chunks", w: [14, 6, 8, 2, 4, 3, 5, 3, 5, 8, 3, 3, 1, 5, 4, 1, 3], max_size: 40 << 10, max_align_log2: 12 }
+        Profile { name: "chunks", w: [14, 6, 8, 2, 4, 3, 5, 3, 5, 8, 3, 3, 1, 5, 4, 1, 3, 0], max_size: 40 << 10, max_align_log2: 12 }
     }
     pub const fn limits() -> Profile {
-        Profile { name: "limits", w: [20, 8, 8, 2, 4, 2, 6, 3, 5, 5, 14, 1, 0, 5, 4, 0, 0], max_size: 24 << 10, max_align_log2: 6 }
+        Profile { name: "limits", w: [20, 8, 8, 2, 4, 2, 6, 3, 5, 5, 14, 1, 0, 5, 4, 0, 0, 0], max_size: 24 << 10, max_align_log2: 6 }
     }
     pub const fn alignment() -> Profile {
-        Profile { name: "alignment", w: [22, 10, 8, 2, 5, 3, 12, 10, 14, 4, 0, 1, 0, 8, 6, 0, 0], max_size: 8 << 10, max_align_log2: 12 }
+        Profile { name: "alignment", w: [22, 10, 8, 2, 5, 3, 12, 10, 14, 4, 0, 1, 0, 8, 6, 0, 0, 0], max_size: 8 << 10, max_align_log2: 12 }
     }
     pub const fn allocator() -> Profile {
-        Profile { name: "allocator", w: [6, 4, 4, 1, 3, 2, 20, 16, 30, 3, 1, 1, 6, 1, 6, 0, 2], max_size: 12 << 10, max_align_log2: 9 }
+        Profile { name: "allocator", w: [6, 4, 4, 1, 3, 2, 20, 16, 30, 3, 1, 1, 6, 1, 6, 0, 2, 0], max_size: 12 << 10, max_align_log2: 9 }
     }
     pub const fn trywith() -> Profile {
-        Profile { name: "trywith", w: [10, 4, 4, 1, 30, 16, 4, 3, 3, 3, 1, 1, 2, 2, 14, 0, 2], max_size: 8 << 10, max_align_log2: 6 }
+        Profile { name: "trywith", w: [10, 4, 4, 1, 30, 16, 4, 3, 3, 3, 1, 1, 2, 2, 14, 0, 2, 0], max_size: 8 << 10, max_align_log2: 6 }
+    }
+    pub const fn faults() -> Profile {
+        // C09: no refusal toggles (the schedule is fixed by the enumeration), huge requests included
+        Profile { name: "faults", w: [16, 10, 10, 3, 8, 4, 8, 4, 8, 4, 4, 1, 1, 5, 8, 0, 0, 6], max_size: 12 << 10, max_align_log2: 8 }
     }
     pub fn by_name(n: &str) -> Profile {
         match n {
@@ -51,6 +55,7 @@ impl Profile {
             "alignment" => Self::alignment(),
             "allocator" => Self::allocator(),
             "trywith" => Self::trywith(),
+            "faults" => Self::faults(),
             _ => Self::general(),
         }
     }
@@ -104,29 +109,30 @@ pub fn pick_align<const M: usize>(s: &mut Sim<M>, p: &Profile) -> usize {
 }
 
 fn pick_flavour<const M: usize>(s: &mut Sim<M>) -> Flavour {
-    match s.rng.below(4) {
-        0 => Flavour::Plain,
-        1 => Flavour::Try,
-        2 => Flavour::With,
+    let r = s.rng.below(4);
+    match (r, s.force_fallible) {
+        (0, None) | (0, Some(false)) | (1, Some(false)) => Flavour::Plain,
+        (1, None) | (0, Some(true)) | (1, Some(true)) => Flavour::Try,
+        (2, None) | (2, Some(false)) | (3, Some(false)) => Flavour::With,
         _ => Flavour::TryWith,
     }
 }
 
 /// one random step; returns the op kind index
-pub fn step<const M: usize>(s: &mut Sim<M>, rep: &mut Report, p: &Profile) -> usize {
+pub fn step<const M: usize>(s: &mut Sim<M>, rep: &mut Report, p: &Profile) -> (usize, Outcome) {
     let k = s.rng.weighted(&p.w);
     rep.bump(&format!("op.{}", OP_NAMES[k]));
-    match k {
+    let out = match k {
         0 => {
             let size = pick_size(s, p);
             let align = pick_align(s, p);
-            let f = s.rng.chance(1, 2);
-            s.op_alloc_layout(rep, size, align, f);
+            let f = fl(s);
+            s.op_alloc_layout(rep, size, align, f)
         }
         1 => {
             let ty = s.rng.below(NTYPES);
             let fl = pick_flavour(s);
-            s.op_alloc_val(rep, ty, fl);
+            s.op_alloc_val(rep, ty, fl)
         }
         2 => {
             let ty = s.rng.below(NTYPES);
@@ -134,20 +140,20 @@ pub fn step<const M: usize>(s: &mut Sim<M>, rep: &mut Report, p: &Profile) -> us
             let bytes = pick_size(s, p);
             let len = if esz == 0 { s.rng.below(40) } else { bytes / esz };
             let kind = s.rng.below(6) as u8;
-            let f = s.rng.chance(1, 2);
-            s.op_alloc_slice(rep, ty, len, kind, f);
+            let f = fl(s);
+            s.op_alloc_slice(rep, ty, len, kind, f)
         }
         3 => {
             let len = pick_size(s, p).min(4096);
-            let f = s.rng.chance(1, 2);
-            s.op_alloc_str(rep, len, f);
+            let f = fl(s);
+            s.op_alloc_str(rep, len, f)
         }
         4 => {
             let ty = *s.rng.pick(&[0usize, 3, 6, 9, 4, 7, 13, 10, 2]);
-            let f = s.rng.chance(1, 2);
+            let f = fl(s);
             let ok = s.rng.chance(2, 5);
             let inner = *s.rng.pick(&[0u8, 0, 0, 1, 2]);
-            s.op_try_with(rep, ty, f, ok, inner, true);
+            s.op_try_with(rep, ty, f, ok, inner, true)
         }
         5 => {
             let ty = *s.rng.pick(&[0usize, 2, 3, 6, 4, 10]);
@@ -156,19 +162,20 @@ pub fn step<const M: usize>(s: &mut Sim<M>, rep: &mut Report, p: &Profile) -> us
             let len = if esz == 0 { s.rng.below(10) } else { bytes / esz };
             let fail = if len > 0 && s.rng.chance(3, 5) { Some(s.rng.below(len)) } else { None };
             let it = s.rng.chance(1, 2);
-            s.op_slice_try_fill(rep, ty, len, fail, it, true);
+            s.op_slice_try_fill(rep, ty, len, fail, it, true)
         }
         6 => {
             let size = pick_size(s, p);
             let align = pick_align(s, p);
             let z = s.rng.chance(1, 5);
-            s.op_allocate(rep, size, align, z);
+            s.op_allocate(rep, size, align, z)
         }
         7 => {
             let last = s.rng.chance(1, 2);
             if let Some(a) = s.pick_layout_block(last) {
                 s.op_deallocate(rep, a);
             }
+            Outcome::Ok
         }
         8 => {
             let last = s.rng.chance(3, 5);
@@ -195,12 +202,15 @@ pub fn step<const M: usize>(s: &mut Sim<M>, rep: &mut Report, p: &Profile) -> us
                     _ => oal,
                 };
                 let z = s.rng.chance(1, 3);
-                s.op_realloc(rep, a, new_size, new_align, z);
+                s.op_realloc(rep, a, new_size, new_align, z)
+            } else {
+                Outcome::Ok
             }
         }
         9 => {
             let probe = s.rng.chance(1, 2);
             s.op_reset(rep, probe);
+            Outcome::Ok
         }
         10 => {
             let held = s.held_usable();
@@ -220,9 +230,16 @@ pub fn step<const M: usize>(s: &mut Sim<M>, rep: &mut Report, p: &Profile) -> us
                 _ => Some(s.rng.range(0, 1 << 20)),
             };
             s.op_set_limit(rep, l);
+            Outcome::Ok
         }
-        11 => s.op_iter(rep),
-        12 => s.op_scribble_block(rep),
+        11 => {
+            s.op_iter(rep);
+            Outcome::Ok
+        }
+        12 => {
+            s.op_scribble_block(rep);
+            Outcome::Ok
+        }
         13 => {
             let cap = match s.rng.below(8) {
                 0 => None,
@@ -234,8 +251,14 @@ pub fn step<const M: usize>(s: &mut Sim<M>, rep: &mut Report, p: &Profile) -> us
                 6 => Some((1usize << s.rng.range(5, 16)) + s.rng.below(3) - 1),
                 _ => Some(s.rng.range(1, 70000)),
             };
-            let f = s.rng.chance(1, 2);
-            s.reconstruct(rep, cap, f);
+            let f = fl(s);
+            if s.reconstruct(rep, cap, f) {
+                Outcome::Ok
+            } else if f {
+                Outcome::Err
+            } else {
+                Outcome::Panic
+            }
         }
         14 => {
             // park the finger so that exactly r bytes remain, r in 0..=70
@@ -243,12 +266,21 @@ pub fn step<const M: usize>(s: &mut Sim<M>, rep: &mut Report, p: &Profile) -> us
             let r = s.rng.below(71);
             if cap > r && cap <= (if cfg!(miri) { 2048 } else { 96 << 10 }) {
                 let want = cap - r;
-                s.op_alloc_layout(rep, want, 1, true);
+                s.op_alloc_layout(rep, want, 1, true)
+            } else {
+                Outcome::Ok
             }
         }
         15 => {
             s.drop_arena_on_other_thread(rep);
             s.reconstruct(rep, None, false);
+            Outcome::Ok
+        }
+        17 => {
+            let f = fl(s);
+            let which = s.rng.below(8) as u8;
+            let n = pick_huge(s);
+            s.op_huge(rep, which, n, f)
         }
         _ => {
             // refusal environment toggles
@@ -260,9 +292,33 @@ pub fn step<const M: usize>(s: &mut Sim<M>, rep: &mut Report, p: &Profile) -> us
                 _ => Refuse::All,
             };
             halloc::set_refuse(r);
+            Outcome::Ok
         }
+    };
+    (k, out)
+}
+
+/// fallible or infallible flavour: a coin, unless the history is forced to one side (twin runs)
+fn fl<const M: usize>(s: &mut Sim<M>) -> bool {
+    let c = s.rng.chance(1, 2);
+    s.force_fallible.unwrap_or(c)
+}
+
+/// sizes on both sides of every overflow boundary
+pub fn pick_huge<const M: usize>(s: &mut Sim<M>) -> usize {
+    let d = s.rng.below(40);
+    match s.rng.below(10) {
+        0 => usize::MAX - d,
+        1 => (isize::MAX as usize) + 1 + d,
+        2 => (isize::MAX as usize) - d,
+        3 => (isize::MAX as usize) - 4096 - d,
+        4 => (isize::MAX as usize) / 2 + d,
+        5 => (1usize << 40) + d,
+        6 => (1usize << 32) + d - 20,
+        7 => (256usize << 20) + d,
+        8 => (65usize << 20) + d,
+        _ => usize::MAX / 8 + d - 20,
     }
-    k
 }
 
 /// Uniform histories for the exact-image clause of C10: every object has alignment `a` (>= M) and a
